@@ -1323,6 +1323,34 @@ def _count(e, cond, seq, sel, what):
     return md is not None and term(e.args[0], seq if md else sel, PARAM)
 
 
+def _tiling_while(rep, fc, loops, n, size):
+    lp = loops[0]
+    cur = None
+    a = atoms(lp.test)
+    if a and len(a) == 1:
+        (op, l, r), = a
+        cur = l if op == 'lt' and r == n else None
+    init = [s for s in fc.node.body if isinstance(s, ast.Assign) and u(s.targets[0]) == cur and s.lineno < lp.lineno]
+    env = {cur: sym('start'), size: sym('size')}
+    ys = [x for x in ast.walk(lp) if isinstance(x, ast.Yield)]
+    okt = cur is not None and len(init) == 1 and is_const(init[0].value, 0) and len(ys) == 1
+    stop_env = dict(env)
+    nxt = None
+    for s in lp.body:
+        if isinstance(s, ast.Assign) and isinstance(s.targets[0], ast.Name):
+            v = Aff.try_of(s.value, stop_env)
+            if s.targets[0].id == cur:
+                nxt = v
+            elif v is not None:
+                stop_env[s.targets[0].id] = v
+    if okt:
+        y = ys[0].value
+        okt = isinstance(y, ast.Call) and u(y.func) == 'slice' and len(y.args) == 2 and Aff.try_of(y.args[0], stop_env) == sym('start') and Aff.try_of(y.args[1], stop_env) == sym('start').add(sym('size')) \
+            and nxt == sym('start').add(sym('size'))
+    rep.add('B5', fc.site(lp), 'chunk_slices tiles [0, n): starts at 0, yields [start, start+size), continues at the previous stop while start < n (no gap, no overlap)', okt,
+            expected='start = 0; while start < n: yield slice(start, start + size); start = start + size', found=[u(s) for s in lp.body], stmt='tiling')
+
+
 def check_matrix(ctx):
     rep, m = ctx.rep, ctx.model
     fi = anchor(m, f'{MET}.jaccarddist_matrix')
@@ -1419,32 +1447,33 @@ def check_matrix(ctx):
     rep.add('B5', fc.site(rs[0] if rs else None), 'a non-positive chunk size is rejected (no infinite loop / empty tiling)', len(rs) == 1 and path_atoms(gmc[rs[0]]) == {('le', size, '0')}, expected=f'raise under {size} <= 0',
             found=[sorted(path_atoms(gmc[r])) for r in rs], stmt='chunk size guard')
     loops = [s for s in fc.node.body if isinstance(s, ast.While)]
-    rep.require(len(loops) == 1, 'chunk_slices: expected one while loop')
-    lp = loops[0]
-    cur = None
-    a = atoms(lp.test)
-    if a and len(a) == 1:
-        (op, l, r), = a
-        cur = l if op == 'lt' and r == n else None
-    init = [s for s in fc.node.body if isinstance(s, ast.Assign) and u(s.targets[0]) == cur and s.lineno < lp.lineno]
-    env = {cur: sym('start'), size: sym('size')}
-    ys = [x for x in ast.walk(lp) if isinstance(x, ast.Yield)]
-    okt = cur is not None and len(init) == 1 and is_const(init[0].value, 0) and len(ys) == 1
-    stop_env = dict(env)
-    nxt = None
-    for s in lp.body:
-        if isinstance(s, ast.Assign) and isinstance(s.targets[0], ast.Name):
-            v = Aff.try_of(s.value, stop_env)
-            if s.targets[0].id == cur:
-                nxt = v
-            elif v is not None:
-                stop_env[s.targets[0].id] = v
-    if okt:
-        y = ys[0].value
-        okt = isinstance(y, ast.Call) and u(y.func) == 'slice' and len(y.args) == 2 and Aff.try_of(y.args[0], stop_env) == sym('start') and Aff.try_of(y.args[1], stop_env) == sym('start').add(sym('size')) \
-            and nxt == sym('start').add(sym('size'))
-    rep.add('B5', fc.site(lp), 'chunk_slices tiles [0, n): starts at 0, yields [start, start+size), continues at the previous stop while start < n (no gap, no overlap)', okt,
-            expected='start = 0; while start < n: yield slice(start, start + size); start = start + size', found=[u(s) for s in lp.body], stmt='tiling')
+    floops = [s for s in fc.node.body if isinstance(s, ast.For)]
+    if not loops and len(floops) == 1 and isinstance(floops[0].iter, ast.Call) and u(floops[0].iter.func) == 'range' and len(floops[0].iter.args) == 3 \
+            and not floops[0].iter.keywords and isinstance(floops[0].target, ast.Name) and not floops[0].orelse:
+        # the same tiling as a counted loop: for start in range(0, n, size): yield slice(start, start + size | clipped to n)
+        lp = floops[0]
+        cur = lp.target.id
+        envf = {cur: sym('start'), size: sym('size'), n: sym('n')}
+        a0, a1, a2 = (Aff.try_of(x, envf) for x in lp.iter.args)
+        ys = [x for x in ast.walk(lp) if isinstance(x, ast.Yield)]
+        oky = False
+        if len(ys) == 1 and len(lp.body) == 1 and isinstance(lp.body[0], ast.Expr) and lp.body[0].value is ys[0]:
+            y = ys[0].value
+            if isinstance(y, ast.Call) and u(y.func) == 'slice' and len(y.args) == 2 and Aff.try_of(y.args[0], envf) == sym('start'):
+                hi = y.args[1]
+                full = sym('start').add(sym('size'))
+                if Aff.try_of(hi, envf) == full:
+                    oky = True
+                elif isinstance(hi, ast.Call) and u(hi.func) == 'min' and len(hi.args) == 2 and not hi.keywords:
+                    pair = [Aff.try_of(x, envf) for x in hi.args]
+                    oky = full in pair and sym('n') in pair
+        okt = oky and a0 is not None and str(a0) == '0' and a1 == sym('n') and a2 == sym('size')
+        rep.add('B5', fc.site(lp), 'chunk_slices tiles [0, n): starts at 0, yields [start, start+size), continues at the previous stop while start < n (no gap, no overlap)', okt,
+                expected='for start in range(0, n, size): yield slice(start, start + size)   (stop may be clipped to n)', found=[f'for {cur} in {u(lp.iter)}'] + [u(s) for s in lp.body], stmt='tiling')
+        loops = None
+    else:
+        rep.require(len(loops) == 1, 'chunk_slices: expected one while loop (or one `for start in range(0, n, size)` loop)')
+    _tiling_while(rep, fc, loops, n, size) if loops else None
     every_iteration(V, st, chunk_loop, 'the jaccarddist_array call')
 
     def leaf_for(nq, nr, cs):
